@@ -298,8 +298,10 @@ package memberlist
 //@ ghost $plain []byte
 //@ ghost $bodyRead bool
 //@ ghost $rsLabel string
+//@ ghost $crcGot int
+//@ ghost $crcWant int
 //@ func (*Memberlist).ingestPacket(m, buf, from, timestamp)
-//@   safety [C13]
+//@   safety [C12,C13]
 //@   requires ok: mlNet(m) && from != nil
 //@   at call RemoveLabelHeaderFromPacket: set $pktLabel := res1
 //@   at call (*Memberlist).handleCommand: assert label-isolation [C16]: ite(m.config.SkipInboundLabelCheck, $pktLabel == "", $pktLabel == m.config.Label)
@@ -311,6 +313,9 @@ package memberlist
 //@   at call decryptPayload: assert all-installed-keys [C14,C17]: keys == $installed
 //@   at call decryptPayload: set $decErr := res1
 //@   at call decryptPayload: set $plain := res0
+//@   at call hash/crc32.ChecksumIEEE: set $crcGot := res
+//@   at call (encoding/binary.bigEndian).Uint32: set $crcWant := res
+//@   at call (*Memberlist).handleCommand #1: assert crc-verified [C12]: $crcGot == $crcWant && len(buf) >= 0
 //@   at call (*Memberlist).handleCommand: assert authenticated-only [C14]: $encOn && m.config.GossipVerifyIncoming ==> $decErr == 0 && (sliceEq($buf, $plain) || sliceEq($buf, $plain[5:]))
 
 //@ func (*Memberlist).handleCommand(m, buf, from, timestamp)
@@ -337,11 +342,15 @@ package memberlist
 //@   ensures refuse-version [C14]: len(msg) > 0 && old(msg[0]) > 1 ==> result1 != nil
 //@   ensures refuse-short [C14]: len(msg) > 0 && len(msg) < 29 ==> result1 != nil
 //@   ensures refuse-nokeys [C14]: len(keys) == 0 ==> result1 != nil
+//@   loop #1 invariant same [C12]: len(msg) >= 29
+//@   ensures plain-size-v1 [C12]: result1 == nil && old(msg[0]) == 1 ==> len(result0) == len(msg) - 29
+//@   ensures plain-size-v0 [C12]: result1 == nil && old(msg[0]) == 0 ==> len(result0) <= len(msg) - 29 && len(result0) >= len(msg) - 29 - 255
 
 //@ func decryptMessage(key, msg, data)
-//@   safety [C13]
+//@   safety [C12,C13]
 //@   modular
 //@   requires len: len(msg) >= 29
+//@   ensures plain-size [C12]: result1 == nil ==> len(result0) == len(msg) - 29     // version byte, nonce and tag removed
 
 // ackLock: every registered handler is a live object with an ack callback and a reaping timer.
 //@ lock Memberlist.ackLock recv m
@@ -514,11 +523,13 @@ package memberlist
 //@   requires nn: c != nil
 //@   ensures keyring [C15]: result ==> c.Keyring != nil
 //@ func (*Memberlist).rawSendMsgPacket(m, a, node, msg)
-//@   safety [C11,C13,C20]
+//@   safety [C11,C12,C13,C20]
 //@   modular
 //@   requires ok: mlNet(m)
 //@   at call (*Memberlist).encryptionVersion: set $vsn := res
 //@   ensures kept [C11]: bufsKept(0)
+//@   at call hash/crc32.ChecksumIEEE: set $crcGot := res
+//@   at call (encoding/binary.bigEndian).PutUint32: assert crc-stored [C12]: v == $crcGot && len(b) == 4
 //@   at call NodeAwareTransport.WriteToAddress: assert wire-size [C11]: len(arg0) <= len(entry(msg)) + 5 + ite($encOn, encOv($vsn), 0)
 //@   at call (*Config).EncryptionEnabled: set $encErr := 1
 //@   at call (*Config).EncryptionEnabled: set $encOn := res && m.config.GossipVerifyOutgoing
@@ -574,9 +585,13 @@ package memberlist
 //@   ensures bound [C11,C12]: forall n int :: n >= 0 ==> encLen(vsn, n) <= n + result
 
 //@ func (*Memberlist).encryptLocalState(m, sendBuf, streamLabel)
-//@   safety [C13,C20]
+//@   safety [C12,C13,C20]
 //@   modular
 //@   requires ok: mlNet(m) && m.config.Keyring != nil
+//@   at call (*Memberlist).encryptionVersion: set $vsn := res
+//@   at call (encoding/binary.bigEndian).PutUint32: assert len-field [C12]: len(sendBuf) <= 4000000000 ==> v == encLen($vsn, len(sendBuf))
+//@   at call encryptPayload: assert aad-header [C12]: len(data) == 5 + len(streamLabel)
+//@   ensures framed [C12]: result1 == nil ==> len(result0) == 5 + encLen($vsn, len(sendBuf))
 //@   at call (*Keyring).GetPrimaryKey: set $encErr := 1
 //@   at call (*Keyring).GetPrimaryKey: set $primary := res
 //@   at call encryptPayload: assert seal-with-primary [C15,C17]: key == $primary && buflen(dst) == 5
@@ -613,7 +628,8 @@ package memberlist
 
 //@ func pkcs7encode(buf, ignore, blockSize)
 //@   safety [C11,C12,C13,C20]
-//@   requires nn: buf != nil && blockSize > 0 && ignore >= 0 && ignore <= buflen(buf)
+//@   conv lossless        // the pad byte holds the pad length
+//@   requires nn: buf != nil && blockSize > 0 && blockSize <= 255 && ignore >= 0 && ignore <= buflen(buf)
 //@   loop #1 invariant grow [C11,C12,C13]: buflen(buf) == old(buflen(buf)) + rangeint_iter
 //@   loop #1 invariant others [C11]: forall p *bytes.Buffer :: p != buf ==> buflen(p) == old(buflen(p))
 //@   ensures others [C11]: forall p *bytes.Buffer :: p != buf ==> buflen(p) == old(buflen(p))
@@ -780,9 +796,10 @@ package memberlist
 //@   ensures nn: result3 == nil ==> result1 != nil && result2 != nil
 
 //@ func (*Memberlist).decryptRemoteState(m, bufConn, streamLabel)
-//@   safety [C13,C14]
+//@   safety [C12,C13,C14]
 //@   modular
 //@   requires ok: mlNet(m) && bufConn != nil && m.config.Keyring != nil
+//@   at call decryptPayload: assert body-as-announced [C12]: len(msg) == moreBytes && len(data) == 5 + len(streamLabel)
 //@   at call io.CopyN #2: assert cap-cipher [C13]: arg2 <= maxPushStateBytes
 //@   at call io.CopyN #1: set $bodyRead := false
 //@   at call io.CopyN #2: set $bodyRead := true
@@ -797,11 +814,20 @@ package memberlist
 //@   at make header.Nodes: assert cap-nodes [C13,C09]: 0 <= n && n <= maxPushStateNodes
 //@   at make header.UserStateLen: assert cap-user [C13,C09]: 0 < n && n <= maxPushStateBytes
 
+// C12: a reliable user message is handed to the delegate complete, and reading it fails only if decoding the header
+// or the underlying reader fails (however the stream fragments the payload), or the announced length is out of range
+//@ ghost $hdrErr int
+//@ ghost $rdErr int
 //@ func (*Memberlist).readUserMsg(m, bufConn, dec)
-//@   safety [C13]
+//@   safety [C12,C13]
 //@   modular
 //@   requires ok: mlNet(m) && bufConn != nil && dec != nil
 //@   at make header.UserMsgLen: assert cap-msg [C13]: 0 < n && n <= maxUserMsgBytes
+//@   at call (*github.com/hashicorp/go-msgpack/v2/codec.Decoder).Decode: set $rdErr := 0
+//@   at call (*github.com/hashicorp/go-msgpack/v2/codec.Decoder).Decode: set $hdrErr := res
+//@   at call io.ReadAtLeast: set $rdErr := res1
+//@   at call Delegate.NotifyMsg: assert whole-payload [C12]: len(arg0) == header.UserMsgLen && $rdErr == 0 && $hdrErr == 0
+//@   ensures-internal no-spurious-failure [C12]: result != nil ==> $hdrErr != 0 || $rdErr != 0 || header.UserMsgLen < 0 || header.UserMsgLen > maxUserMsgBytes
 
 //@ ghost $verifyRes int
 //@ ghost $mergeRes int
@@ -941,7 +967,7 @@ package memberlist
 //@   ensures refuse [C16]: len(buf) > 0 && buf[0] == 244 && (len(buf) < 2 || buf[1] < 1 || len(buf) < 2 + buf[1]) ==> result2 != nil
 //@   ensures accept [C16]: len(buf) >= 2 && buf[0] == 244 && buf[1] >= 1 && len(buf) >= 2 + buf[1] ==> result2 == nil
 
-//@ lemma label-roundtrip [C16]
+//@ lemma label-roundtrip [C12,C16]
 //@   vars p []byte, b []byte, L string, q []byte, L2 string
 //@   hyp len(L) >= 1 && len(L) <= 255
 //@   hyp hdrOf(p, L, b)
